@@ -774,13 +774,18 @@ def check_cli_runs(ctx, runs):
                 ctx.violation("cli:chromosome-not-written", f"requested chromosome {chrom} was not written: args={run['args']}",
                               {"kind": "cli", "spec": run["spec"]})
                 continue
-            for vi, p in enumerate(t["positions"]):
+            tindex = {p: vi for vi, p in enumerate(t["positions"])}
+            # every record of the chromosome in the output, also those that are not in the variant table
+            for p in sorted({pp for (cc, pp, _) in calls if cc == chrom}):
+                vi = tindex.get(p)
+                if vi is None:
+                    ctx.tally("cli.records-not-in-variant-table")
                 for s in run["vcf_samples"]:
                     gt, gq, gl = calls[(chrom, p, s)]
-                    tl = t["lik"].get(s)
+                    tl = t["lik"].get(s) if vi is not None else None
                     l = None if tl is None or tl[vi] is None else [G.hex_to_fraction(h) for h in tl[vi]]
-                    wcalls.append((s in run["genotyped"], gt_index(gt), None if gq in (None, ".") else int(gq),
-                                   gl_values(gl), l, (pfx + chrom, p, s, gt, gq, gl)))
+                    wcalls.append((s in run["genotyped"] and vi is not None, gt_index(gt),
+                                   None if gq in (None, ".") else int(gq), gl_values(gl), l, (pfx + chrom, p, s, gt, gq, gl)))
         calls = outputs[0][0]
         ctx.tally("cli.wcalls", len(wcalls))
         ctx.tally("cli.wcalls.unselected", sum(1 for w in wcalls if not w[0]))
@@ -907,7 +912,7 @@ def run(ctx):
         ctx.sample({"inst": rec["inst"], "impl": rec["impl"].get("ok"), "checks": rec["ok"]})
     report_core(ctx, records)
     ctx.extra["core_checks"] = {k: sum(1 for r in records if k in r["ok"]) for k in ("L2", "L1chain", "L1thm", "L1plain", "L1sum")}
-    check_cli(ctx, ctx.n(20, 160))
+    check_cli(ctx, ctx.n(24, 168))
 
 
 def replay(ctx, data):
